@@ -12,6 +12,7 @@ Failures are attributed to the construct at the first stage that deviates (gramm
 operand encoder) and keyed by that construct, not by the encoding."""
 from __future__ import annotations
 
+import ast
 import collections
 import multiprocessing as mp
 import os
@@ -248,6 +249,65 @@ def check_form(job: tuple) -> dict:
     return out
 
 
+def _subst(bv: BitVec, name: str, value: int) -> BitVec:
+    bits = []
+    for b in bv.bits:
+        if isinstance(b, tuple) and len(b) == 3 and b[0] == name:
+            v = (value >> b[1]) & 1
+            bits.append(v ^ 1 if b[2] else v)
+        else:
+            bits.append(b)
+    return BitVec(bits)
+
+
+def check_name(job: tuple) -> dict:
+    """job = (pre, opcode, tokens, reg_name, reg_value).  The form is assembled twice by abstract interpretation: with the register as
+    a *symbolic* member of IMEMRegisters (what check_form decides for all registers at once) and with the concrete name `reg_name`
+    spelled out (the other numbers stay symbolic).  Spelling the name out must give the symbolic result instantiated at its value:
+    no register name may mean something else to the grammar or the transformer."""
+    global _W
+    if _W is None:
+        _winit()
+    _sw, aa, cache = _W
+    pre, opcode, tokens, reg_name, reg_value = job
+    text_s, symtab = build_text(tokens, True)
+    ph = next((k for k, v in symtab.items() if v.kind == "name"), None)
+    out = {"pre": pre, "opcode": opcode, "name": reg_name, "value": reg_value, "same": True, "skipped": False}
+    if ph is None:
+        out["skipped"] = True
+        return out
+    from ..absint import sym_name
+    symname = sym_name(symtab[ph].bv)
+    ck = (text_s, True, tuple(sorted((k, repr(v.bv)) for k, v in symtab.items())))
+    if ck not in cache:
+        try:
+            cache[ck] = aa.assemble_text(text_s, symtab, sym_enum="member")
+        except Unknown as e:
+            cache[ck] = {"status": "unknown", "exc": str(e), "symbols": sorted(getattr(e, "symbols", ()))}
+    rs = cache[ck]
+    text_c = re.sub(r"\b" + re.escape(ph) + r"\b", reg_name, text_s)
+    st2 = {k: v for k, v in symtab.items() if k != ph}
+    ck2 = ("concrete", text_c, tuple(sorted((k, repr(v.bv)) for k, v in st2.items())))
+    if ck2 not in cache:
+        try:
+            cache[ck2] = aa.assemble_text(text_c, st2, sym_enum="member")
+        except Unknown as e:
+            cache[ck2] = {"status": "unknown", "exc": str(e)}
+    rc = cache[ck2]
+    out["text"] = text_c
+    if rs["status"] == "unknown" or rc["status"] == "unknown":
+        out["skipped"] = True     # the assembler branches on the register value: check_form splits that form value by value
+        return out
+
+    def segs(r: dict, inst: bool) -> Any:
+        if r["status"] != "ok":
+            return (r["status"], r.get("exc"))
+        return [(a, [_bstr(_subst(BitVec.lift(b), symname, reg_value) if inst else BitVec.lift(b)) for b in bs]) for a, bs in r["segments"]]
+    exp, got = segs(rs, True), segs(rc, False)
+    out.update(same=(exp == got), expected=exp, got=got)
+    return out
+
+
 def _text_modes(tokens: list) -> list[str]:
     try:
         ops = parse_operands(tokens)
@@ -335,6 +395,20 @@ def attribute(r: dict) -> tuple[str, str, str]:
     return ("C09.2/" + v, f"{alias}: {r.get('detail', '')}", v)
 
 
+def _imem_registers(py: PyProgram) -> list[tuple[str, int]]:
+    mod = py.module(isa.OPCODES_PY)
+    cls = next((n for n in mod.tree.body if isinstance(n, ast.ClassDef) and n.name == "IMEMRegisters"), None)
+    if cls is None:
+        raise AnalysisError("IMEMRegisters enum vanished")
+    out = []
+    for st in cls.body:
+        if isinstance(st, ast.Assign) and len(st.targets) == 1 and isinstance(st.targets[0], ast.Name) and isinstance(st.value, ast.Constant) and isinstance(st.value.value, int):
+            out.append((st.targets[0].id, st.value.value))
+    if len(out) < 20:
+        raise AnalysisError(f"IMEMRegisters has only {len(out)} literal members")
+    return out
+
+
 def _regpair(rows: dict, reg_sizes: dict, c: Case) -> tuple | None:
     """(template RegPair size, width of the first rendered register) for reg-pair instructions."""
     row = rows.get(c.opcode)
@@ -378,6 +452,31 @@ def run(ctx: Ctx) -> None:
     jobs.sort(key=lambda j: (str(j[7]), j[9]))
     with mp.get_context("fork").Pool(min(16, os.cpu_count() or 4), initializer=_winit) as pool:
         results = pool.map(check_form, jobs, chunksize=24)
+        # named internal registers: every register name, in every operand position a name is printed, reads as its number
+        regs = _imem_registers(py)
+        named_forms: dict = {}
+        for c in forms:
+            if has_symbolic_name(c.tokens):
+                named_forms.setdefault((c.opcode, _mode_sig(c.tokens)), c)
+        reps = sorted(named_forms.items(), key=lambda kv: (kv[0][0], str(kv[0][1])))
+        if ctx.tier == "quick":
+            seen_sig: dict = {}
+            for (op, sig), c in reps:
+                seen_sig.setdefault(sig, ((op, sig), c))
+            reps = list(seen_sig.values())
+        njobs = [(c.pre, c.opcode, c.tokens, nm, val) for (_k, c) in reps for nm, val in regs]
+        nres = pool.map(check_name, njobs, chunksize=16)
+    bad_names: dict = collections.defaultdict(list)
+    for r in nres:
+        if not r["same"]:
+            bad_names[r["name"]].append(r)
+    for nm, rs in sorted(bad_names.items()):
+        ex = rs[0]
+        def show(x: Any) -> str:
+            return " ".join(b for _a, bs in x for b in bs) if isinstance(x, list) else f"{x[0]}: {x[1]}"
+        ctx.violation("C09.1/register-name", f"{ASM_PY}: internal register name {nm} is not read as register 0x{ex['value']:02X}",
+                      f"`{ex['text']}` (register 0x{ex['value']:02X} written by name, as the disassembler prints it) assembles to [{show(ex['got'])}] where an internal register name in that position gives [{show(ex['expected'])}]; {len(rs)} operand shape(s)", ASM_PY)
+    ctx.instance("C09.1/register-name", "register name x operand shape: the spelled-out name assembles to the symbolic-member result at its value", len([r for r in nres if not r["skipped"]]), 300 if ctx.tier == "quick" else 3000)
     tally = collections.Counter(r["verdict"] for r in results)
     unk = [r for r in results if r["verdict"] == "unknown"]
     if unk:
